@@ -619,6 +619,14 @@ func runParameters() {
 	r.Count("exhaustive_Parameters_wordcounts", 256)
 }
 
+type heldBytes struct {
+	live, want []byte
+	what       string
+}
+
+var liveData = data.NewData()
+var heldData []heldBytes
+
 func runData() {
 	sp := newSpec("Data", func(pre, buf []byte) (int, error, []fv) {
 		d := data.NewData()
@@ -653,6 +661,34 @@ func runData() {
 		}
 		sp.judge([]fv{fu("ByteCount", uint64(len(b))), fb("Bytes", b)}, enc, len(b) > 0, desc)
 		sample(sp, desc, enc)
+		// results handed out by an earlier decode (and a buffer handed in through SetData) must not
+		// change when the same object decodes something else afterwards
+		if len(b) <= 4096 {
+			in := append([]byte(nil), enc...)
+			liveData.Unmarshal(in)
+			got := liveData.GetBytes()
+			heldData = append(heldData, heldBytes{live: got, want: append([]byte(nil), got...), what: desc})
+			if len(heldData) > 48 {
+				heldData = heldData[1:]
+			}
+			for i := range heldData {
+				if string(heldData[i].live) != string(heldData[i].want) {
+					r.Violation("Data.Unmarshal:held-result-changed", "bytes returned by GetBytes() after an earlier decode changed when the same Data decoded another block ("+heldData[i].what+")", map[string]any{"value": heldData[i].what})
+					heldData[i].want = append([]byte(nil), heldData[i].live...)
+				}
+			}
+			r.Eval(1)
+			if mode%5 == 0 { // a caller-owned buffer given to SetData, then the object decodes something else
+				own := append([]byte(nil), b...)
+				keep := append([]byte(nil), b...)
+				liveData.SetData(own)
+				liveData.Unmarshal(append([]byte(nil), enc...))
+				liveData.Unmarshal([]byte{3, 0, 0xEE, 0xEE, 0xEE})
+				if string(own) != string(keep) {
+					r.Violation("Data.Unmarshal:overwrites-setdata-argument", "the buffer a caller passed to SetData was overwritten by a later Unmarshal into the same object", map[string]any{"value": desc})
+				}
+			}
+		}
 	}
 	mode := 0
 	for _, n := range stringLengths {
